@@ -600,6 +600,8 @@ def check_c19(out, tier):
         cfg["examples"] = rnd.choice(["", "", "all"]) if cfg["format"] == "shexc" else ""
         cfg["minIri"] = rnd.random() < .3
         cases.append(gen.case("c19g%d" % i, T, **cfg))
+    cases += [gen.or_fan_case(rnd, "c19o%d" % i) for i in range(8 * k)]      # disjunctions rewritten after an empty shape is removed
+    cases += [gen.fan_case(rnd, "c19f%d" % i) for i in range(6 * k)]
     for i in range(24 * k):
         T = endpoint_graph(rnd)
         cfg = gen.switches(rnd)
